@@ -43,6 +43,9 @@ type Session struct {
 	overlay  map[string]string // virtual path → real file
 	LoadSecs float64
 	InitErrs []string
+	// DroppedOptional: optional white-box harness files (zz_verif_opt_*.go) left out
+	// because they do not compile against the current tree (see Open)
+	DroppedOptional []string
 }
 
 // harnessOverlay maps every file under <verif>/harness (except *.json) to the
@@ -89,39 +92,66 @@ func Open(cfg Config, pkgPaths []string) (*Session, error) {
 	if err != nil {
 		return nil, err
 	}
-	overlay := map[string][]byte{}
-	for virt, real := range ov {
-		if strings.HasSuffix(virt, "_test.go") {
-			continue
+	var pkgs []*packages.Package
+	var dropped []string
+	for attempt := 0; ; attempt++ {
+		overlay := map[string][]byte{}
+		for virt, real := range ov {
+			if strings.HasSuffix(virt, "_test.go") {
+				continue
+			}
+			b, err := os.ReadFile(real)
+			if err != nil {
+				return nil, err
+			}
+			overlay[virt] = b
 		}
-		b, err := os.ReadFile(real)
+		pcfg := &packages.Config{
+			Mode:    packages.LoadAllSyntax | packages.NeedEmbedFiles,
+			Dir:     cfg.Repo,
+			Overlay: overlay,
+			Env:     append(os.Environ(), "GOFLAGS=-mod=mod", "GOPROXY=off"),
+		}
+		pkgs, err = packages.Load(pcfg, pkgPaths...)
 		if err != nil {
 			return nil, err
 		}
-		overlay[virt] = b
-	}
-	pcfg := &packages.Config{
-		Mode:    packages.LoadAllSyntax | packages.NeedEmbedFiles,
-		Dir:     cfg.Repo,
-		Overlay: overlay,
-		Env:     append(os.Environ(), "GOFLAGS=-mod=mod", "GOPROXY=off"),
-	}
-	pkgs, err := packages.Load(pcfg, pkgPaths...)
-	if err != nil {
-		return nil, err
-	}
-	var errs []string
-	packages.Visit(pkgs, nil, func(p *packages.Package) {
-		for _, e := range p.Errors {
-			errs = append(errs, e.Error())
+		var errs []string
+		packages.Visit(pkgs, nil, func(p *packages.Package) {
+			for _, e := range p.Errors {
+				errs = append(errs, e.Error())
+			}
+		})
+		if len(errs) == 0 {
+			break
 		}
-	})
-	if len(errs) > 0 {
+		// Optional harness files (zz_verif_opt_*.go) look at unexported internals
+		// for translator validation only. If the tree no longer has those internals
+		// they are left out - and reported - instead of making the whole check
+		// inconclusive; the property harnesses must still compile.
+		retried := false
+		if attempt == 0 {
+			for virt := range ov {
+				if strings.HasPrefix(filepath.Base(virt), "zz_verif_opt_") && strings.Contains(strings.Join(errs, "\n"), filepath.Base(virt)) {
+					retried = true
+				}
+			}
+			if retried {
+				for virt := range ov {
+					if strings.HasPrefix(filepath.Base(virt), "zz_verif_opt_") {
+						dropped = append(dropped, filepath.Base(virt))
+						delete(ov, virt)
+					}
+				}
+				sort.Strings(dropped)
+				continue
+			}
+		}
 		return nil, fmt.Errorf("package errors (harness does not compile against the current tree?):\n%s", strings.Join(errs, "\n"))
 	}
 	prog, _ := ssautil.AllPackages(pkgs, ssa.InstantiateGenerics)
 	prog.Build()
-	s := &Session{cfg: cfg, prog: prog, pkgs: map[string]*ssa.Package{}, overlay: ov}
+	s := &Session{cfg: cfg, prog: prog, pkgs: map[string]*ssa.Package{}, overlay: ov, DroppedOptional: dropped}
 	// //go:embed variables: pkg path → var name → file content
 	embed := map[string]map[string][]byte{}
 	packages.Visit(pkgs, nil, func(p *packages.Package) {
